@@ -115,9 +115,9 @@ void checkFrameAgainstReference(vf::Ctx & c, const ENUConverter & conv, const Ge
   Eigen::Matrix3d L = T.linear();
   double orth = (L.transpose() * L - Eigen::Matrix3d::Identity()).norm();
   c.maxStat("orthonormality-residual", orth);
-  c.check(orth <= 1e-12, vf::fmt("%s: frame linear part not orthonormal (%.3g)", when, orth));
+  VF_CHECK(c, orth <= 1e-12, "%s: frame linear part not orthonormal (%.3g)", when, orth);
   double det = L.determinant();
-  c.check(std::fabs(det - 1.0) <= 1e-12, vf::fmt("%s: frame determinant %.17g, expected +1 (proper rotation)", when, det));
+  VF_CHECK(c, std::fabs(det - 1.0) <= 1e-12, "%s: frame determinant %.17g, expected +1 (proper rotation)", when, det);
   LD R[3][3], t[3];
   refAxes(a, R); refEcef(a, t);
   double dmax = 0, tmax = 0;
@@ -125,8 +125,8 @@ void checkFrameAgainstReference(vf::Ctx & c, const ENUConverter & conv, const Ge
     for (int k = 0; k < 3; ++k) {dmax = std::max(dmax, std::fabs(static_cast<double>(L(r, k) - R[r][k])));}
     tmax = std::max(tmax, std::fabs(static_cast<double>(T.translation()[r] - t[r])));
   }
-  c.check(dmax <= 1e-12, vf::fmt("%s: axes differ from (east,north,up) at the anchor by %.3g", when, dmax));
-  c.check(tmax <= 1e-6, vf::fmt("%s: frame origin differs from the anchor's ECEF position by %.3g m", when, tmax));
+  VF_CHECK(c, dmax <= 1e-12, "%s: axes differ from (east,north,up) at the anchor by %.3g", when, dmax);
+  VF_CHECK(c, tmax <= 1e-6, "%s: frame origin differs from the anchor's ECEF position by %.3g m", when, tmax);
   // a fresh converter on the same anchor must give the identical frame (re-anchoring fully replaces)
   ENUConverter fresh(mk(a));
   c.check(fresh.getEnuToEcefTransform().matrix() == T.matrix(),
@@ -221,7 +221,7 @@ void history(vf::Ctx & c)
           Eigen::Vector3d r = conv->toENU(mk(op.g));
           c.check(r.allFinite(), w + " toENU(geodetic) non-finite");
           if (!mAnch) {
-            c.check(r.norm() <= 1e-6, vf::fmt("%s: first geodetic point of an un-anchored converter maps to (%.3g,%.3g,%.3g), not the origin", w.c_str(), r[0], r[1], r[2]));
+            VF_CHECK(c, r.norm() <= 1e-6, "%s: first geodetic point of an un-anchored converter maps to (%.3g,%.3g,%.3g), not the origin", w.c_str(), r[0], r[1], r[2]);
             mAnch = true; mA = op.g;
             c.check(conv->isAnchored(), w + ": converter did not anchor itself on the first geodetic point");
             checkFrameAgainstReference(c, *conv, mA, (w + " auto-anchor").c_str());
@@ -229,8 +229,8 @@ void history(vf::Ctx & c)
             Eigen::Vector3d e = refToEnu(mA, op.g);
             double d = (r - e).norm();
             c.maxStat("toENU(geodetic)-vs-reference[m]", d);
-            c.check(d <= 1e-6, vf::fmt("%s: toENU(geodetic) differs from the reference frame by %.3g m (got %.9g,%.9g,%.9g want %.9g,%.9g,%.9g)",
-              w.c_str(), d, r[0], r[1], r[2], e[0], e[1], e[2]));
+            VF_CHECK(c, d <= 1e-6, "%s: toENU(geodetic) differs from the reference frame by %.3g m (got %.9g,%.9g,%.9g want %.9g,%.9g,%.9g)",
+              w.c_str(), d, r[0], r[1], r[2], e[0], e[1], e[2]);
           }
           break;
         }
@@ -240,7 +240,7 @@ void history(vf::Ctx & c)
           c.check(r.allFinite(), w + " toENU(wgs84) non-finite");
           if (!mAnch) {
             // the altitude an un-anchored converter assumes is unspecified: take it from the converter
-            c.check(r.norm() <= 1e-6, vf::fmt("%s: first WGS84 point of an un-anchored converter maps to (%.3g,%.3g,%.3g), not the origin", w.c_str(), r[0], r[1], r[2]));
+            VF_CHECK(c, r.norm() <= 1e-6, "%s: first WGS84 point of an un-anchored converter maps to (%.3g,%.3g,%.3g), not the origin", w.c_str(), r[0], r[1], r[2]);
             c.check(conv->isAnchored(), w + ": converter did not anchor itself on the first WGS84 point");
             GeodeticCoordinates ga = conv->getAnchor();
             c.check(ga.latitude == op.g.lat && ga.longitude == op.g.lon, w + ": auto-anchor latitude/longitude differ from the converted point");
@@ -250,7 +250,7 @@ void history(vf::Ctx & c)
           } else {
             Eigen::Vector3d e = refToEnu(mA, Geo{op.g.lat, op.g.lon, mA.h});
             double d = (r - e).norm();
-            c.check(d <= 1e-6, vf::fmt("%s: toENU(wgs84) differs from the reference (anchor altitude) by %.3g m", w.c_str(), d));
+            VF_CHECK(c, d <= 1e-6, "%s: toENU(wgs84) differs from the reference (anchor altitude) by %.3g m", w.c_str(), d);
           }
           break;
         }
@@ -261,10 +261,10 @@ void history(vf::Ctx & c)
           Eigen::Vector3d r = conv->toENU(Xd);
           double d = (r - op.p).norm();
           c.maxStat("toENU(ecef)-vs-reference[m]", d);
-          c.check(d <= 1e-6, vf::fmt("%s: toENU(ecef) differs from the reference by %.3g m", w.c_str(), d));
+          VF_CHECK(c, d <= 1e-6, "%s: toENU(ecef) differs from the reference by %.3g m", w.c_str(), d);
           // mutual inverse to 1 mm
           double rt = (conv->toECEF(r) - Xd).norm();
-          c.check(rt <= 1e-3, vf::fmt("%s: toECEF(toENU(X)) differs from X by %.3g m", w.c_str(), rt));
+          VF_CHECK(c, rt <= 1e-3, "%s: toECEF(toENU(X)) differs from X by %.3g m", w.c_str(), rt);
           break;
         }
       case TO_ECEF: {
@@ -273,11 +273,11 @@ void history(vf::Ctx & c)
           refToEcef(mA, op.p, X);
           double d = std::sqrt(static_cast<double>((r[0] - X[0]) * (r[0] - X[0]) + (r[1] - X[1]) * (r[1] - X[1]) + (r[2] - X[2]) * (r[2] - X[2])));
           c.maxStat("toECEF-vs-reference[m]", d);
-          c.check(d <= 1e-6, vf::fmt("%s: toECEF(enu) differs from the reference by %.3g m", w.c_str(), d));
+          VF_CHECK(c, d <= 1e-6, "%s: toECEF(enu) differs from the reference by %.3g m", w.c_str(), d);
           Eigen::Vector3d r2 = conv->toECEF(op.p[0], op.p[1], op.p[2]);
           c.check(r2 == r, w + ": toECEF(x,y,z) overload differs from toECEF(vector)");
           double rt = (conv->toENU(r) - op.p).norm();
-          c.check(rt <= 1e-3, vf::fmt("%s: toENU(toECEF(p)) differs from p by %.3g m", w.c_str(), rt));
+          VF_CHECK(c, rt <= 1e-3, "%s: toENU(toECEF(p)) differs from p by %.3g m", w.c_str(), rt);
           break;
         }
       case TO_WGS84: {
@@ -288,11 +288,11 @@ void history(vf::Ctx & c)
           Eigen::Vector3d e = refToEnu(mA, Geo{g.latitude, g.longitude, g.altitude});
           double d = (e - op.p).norm();
           c.maxStat("toWGS84(enu)-reference-roundtrip[m]", d);
-          c.check(d <= 1e-3, vf::fmt("%s: toWGS84(enu) is %.3g m away from the point it should describe (lon %.17g)", w.c_str(), d, g.longitude));
+          VF_CHECK(c, d <= 1e-3, "%s: toWGS84(enu) is %.3g m away from the point it should describe (lon %.17g)", w.c_str(), d, g.longitude);
           // mutual inverse through the library itself
           ENUConverter tmp(mk(mA));
           double rt = (tmp.toENU(g) - op.p).norm();
-          c.check(rt <= 1e-3, vf::fmt("%s: toENU(toWGS84(p)) differs from p by %.3g m", w.c_str(), rt));
+          VF_CHECK(c, rt <= 1e-3, "%s: toENU(toWGS84(p)) differs from p by %.3g m", w.c_str(), rt);
           GeodeticCoordinates g2 = conv->toWGS84(op.p[0], op.p[1], op.p[2]);
           c.check(g2.latitude == g.latitude && g2.longitude == g.longitude && g2.altitude == g.altitude, w + ": toWGS84(x,y,z) overload differs");
           break;
@@ -301,10 +301,10 @@ void history(vf::Ctx & c)
           checkFrameAgainstReference(c, *conv, mA, (w + " frame").c_str());
           // anchor -> origin ; (lat,lon,h0+h) -> (0,0,h)
           Eigen::Vector3d o = conv->toENU(mk(mA));
-          c.check(o.norm() <= 1e-6, vf::fmt("%s: anchor maps to (%.3g,%.3g,%.3g), not the origin", w.c_str(), o[0], o[1], o[2]));
+          VF_CHECK(c, o.norm() <= 1e-6, "%s: anchor maps to (%.3g,%.3g,%.3g), not the origin", w.c_str(), o[0], o[1], o[2]);
           double h = op.p[2];
           Eigen::Vector3d up = conv->toENU(mk(Geo{mA.lat, mA.lon, mA.h + h}));
-          c.check((up - Eigen::Vector3d(0, 0, h)).norm() <= 1e-6, vf::fmt("%s: point %.6g m above the anchor maps to (%.6g,%.6g,%.6g)", w.c_str(), h, up[0], up[1], up[2]));
+          VF_CHECK(c, (up - Eigen::Vector3d(0, 0, h)).norm() <= 1e-6, "%s: point %.6g m above the anchor maps to (%.6g,%.6g,%.6g)", w.c_str(), h, up[0], up[1], up[2]);
           // orientation: a small step north / east
           const double dl = 1e-6;
           Eigen::Vector3d nn = conv->toENU(mk(Geo{mA.lat + dl, mA.lon, mA.h}));
@@ -320,12 +320,12 @@ void history(vf::Ctx & c)
           Eigen::Vector3d a1(static_cast<double>(X1[0]), static_cast<double>(X1[1]), static_cast<double>(X1[2]));
           Eigen::Vector3d a2(static_cast<double>(X2[0]), static_cast<double>(X2[1]), static_cast<double>(X2[2]));
           double d0 = (a1 - a2).norm(), d1 = (conv->toENU(a1) - conv->toENU(a2)).norm();
-          c.check(std::fabs(d0 - d1) <= 1e-6, vf::fmt("%s: distance %.9g m becomes %.9g m in the local frame", w.c_str(), d0, d1));
+          VF_CHECK(c, std::fabs(d0 - d1) <= 1e-6, "%s: distance %.9g m becomes %.9g m in the local frame", w.c_str(), d0, d1);
           break;
         }
     }
     // after every op: anchored flag and anchor agree with the model
-    c.check(conv->isAnchored() == mAnch, vf::fmt("%s: isAnchored()=%d, model says %d", w.c_str(), conv->isAnchored(), mAnch));
+    VF_CHECK(c, conv->isAnchored() == mAnch, "%s: isAnchored()=%d, model says %d", w.c_str(), conv->isAnchored(), mAnch);
     if (mAnch) {
       const GeodeticCoordinates & ga = conv->getAnchor();
       c.check(ga.latitude == mA.lat && ga.longitude == mA.lon && ga.altitude == mA.h, w + ": getAnchor() differs from the anchor last set");
